@@ -14,7 +14,7 @@ CHECKS = {
  "C03": ("exploration", HIST,
          "Every return value and the full contents (iter, len, lookups owned and borrowed) are compared with a map model after every step of seeded histories on both kinds. Sampling, not proof.",
          "Trusted: the reference model (BTreeMap), std/indexmap.", "3,4.C03"),
- "C04": ("exploration", HIST + "; leaked iter_mut/drain guards as injected faults; index-table invariant via the cfg-gated snapshot hook; abort classification of worker processes",
+ "C04": ("exploration", HIST + "; leaked iter_mut/drain guards as injected faults; index-table invariant via the cfg-gated snapshot hook; abort classification of worker processes; one run in ten on the std-hasher constructors new() / with_capacity(n)",
          "No step of any fault-free history may panic or abort; the index tables the unchecked accesses trust are checked after every step; workers run with std's debug precondition checks so an out-of-bounds get_unchecked aborts and is classified; the thorough tier adds a Miri (Tree Borrows) batch of short histories, which is how the IterMut aliasing defect (D9) was found. Sampling, not proof.",
          "Trusted: std's ub_checks on get_unchecked (debug-assertions build), the snapshot hook being read-only.", "3,4.C04"),
 
@@ -54,13 +54,13 @@ CHECKS = {
  "C14": ("exploration", HIST + " + twin simulation: clone taken at a seeded point, lock-step and divergent continuations, same contents rebuilt through another history / capacity / hasher",
          "Clone == source (both directions), identical return values (ties included) under every subsequent step, mutating either never changes the other; queues with equal contents built through different histories, capacities and hashers compare equal, neighbours differing in one priority or one item compare unequal; reflexive, symmetric, transitive on the instances built. Sampling, not proof.",
          "Trusted: the reference model and the trace comparison.", "3,4.C14"),
- "C15": ("exploration", HIST + " + storage-fault injection on serialized queues (record duplication, loss, reordering, splicing, truncation, bit flips) and arbitrary pair sequences through JSON and a serde sequence deserializer with/without length hint",
-         "Round trips from visited states in all four kind directions; any well-typed pair sequence with repeats yields Err or a valid queue holding every distinct item once with one of its priorities; damaged serializations yield Err or a valid, ordered, usable queue; never a panic. Sampling, not proof.",
-         "Hostile length hints of binary formats are outside the statement and not injected.", "3,4.C15"),
- "C17": ("fault_enumeration", HIST + " + lock-step twin simulation with capacity operations, and enumeration of allocation-failure points inside try_reserve* through the simulated allocator",
+ "C15": ("exploration", HIST + " + storage-fault injection on serialized queues (record duplication, loss, reordering, splicing, truncation, bit flips) and arbitrary pair sequences through JSON and a serde sequence deserializer with/without length hint; a length-prefixed binary storage format (stub of the harness: the writer stores the declared sequence length, the reader reports the stored count as its length hint) with count-field faults, truncation and bit flips",
+         "Round trips from visited states in all four kind directions; any well-typed pair sequence with repeats yields Err or a valid queue holding every distinct item once with one of its priorities; damaged serializations (JSON text and length-prefixed binary images whose count field was overwritten or bit-flipped) yield Err or a valid, ordered, usable queue; never a panic and never a process abort on a failed allocation; round trips also through the length-prefixed writer/reader; zero-sized item and priority types. Sampling, not proof.",
+         "The length-prefixed format is a stub standing in for bincode / MessagePack-style formats (not in the cargo cache).", "3,4.C15"),
+ "C17": ("fault_enumeration", HIST + " + lock-step twin simulation with capacity operations, and enumeration of allocation-failure points inside try_reserve* through the simulated allocator; the std-hasher constructors new() / with_capacity(n) against the reference model",
          "A twin that receives with_capacity/reserve/reserve_exact/try_reserve/try_reserve_exact/shrink_to_fit calls must return identical values to one that never does; capacity inequalities after success; requests near usize::MAX and above the simulated memory ceiling must be Err without panic; for one try_reserve per history every allocation index is failed once and persistently: never a panic or abort, Err or Ok-with-the-guarantee, behaviour afterwards unchanged. Histories and insertion points are sampled.",
          "Trusted: the global-allocator wrapper; allocation failure is injected only inside try_reserve*.", "3,4.C17"),
- "C18": ("exploration", "one explicit history executed under 8 hasher configurations (4 SipHash keyings, multiplicative via with_hasher and with_default_hasher, all-colliding, real RandomState), return-value traces compared modulo tie choice",
+ "C18": ("exploration", "one explicit history executed under 9 hasher configurations (4 SipHash keyings, multiplicative via with_hasher and with_default_hasher, all-colliding, a hasher with a specialised hash_one, real RandomState), return-value traces compared modulo tie choice",
          "The trace of every return value must agree across all hashers (priority of extracted elements must agree, the item may differ among ties); a panic or oracle failure under one hasher only is a violation. Sampling, not proof.",
          "RandomState keys cannot be controlled; everything else derives from the seed.", "3,4.C18"),
 }
